@@ -227,6 +227,8 @@ pub struct Knobs {
     /// names of extern symbols that MUST be imported and called at least once (syntactic triggers)
     pub must_call: Vec<&'static str>,
     pub lkm: bool,
+    /// the functions that are never called from inside the binary are generated in "lost return value" mode
+    pub lost_roots: bool,
 }
 
 struct FnGen<'a> {
@@ -491,7 +493,7 @@ pub fn gen_funcs(rng: &mut Rng, knobs: &Knobs) -> ProjectSpec {
     let mut funcs = Vec::new();
     for me in 0..knobs.n_funcs {
         let mut g = FnGen { rng, externs: &externs, voc: &voc, strs: &strs, n_funcs: knobs.n_funcs, me, blocks: Vec::new(), keep_rax: false, carry: Vec::new() };
-        g.keep_rax = g.rng.chance(1, 3);
+        g.keep_rax = g.rng.chance(1, 3) || (knobs.lost_roots && (me == 0 || me + 1 == knobs.n_funcs));
         // prologue block
         let frame = 0x18 + 0x10 * g.rng.below(4);
         let mut pro: Vec<Vec<Op>> = vec![
